@@ -85,17 +85,19 @@ def box_int(x0: int, y0: int, z0: int, x1: int, y1: int, z1: int, qx: int, qy: i
     if 'z' not in axes:
         z0 = z1 = qz = lz = 0
     ags = [_put(m, env, "a0", x0, y0, z0)]
+    where = [(x0, y0, z0)]                 # the oracle uses the positions the agents were given, not a read-back
     if nag >= 2:
         ags.append(_put(m, env, "a1", x1, y1, z1))
+        where.append((x1, y1, z1))
     if nag >= 3:
         # a third agent at one of four concrete positions (join order and independence of the per-agent decisions)
         tx, ty, tz = hx.P['third']
         ags.append(_put(m, env, "a2", tx, ty, tz))
+        where.append((tx, ty, tz))
     got = env.get_agents_at(qx, qy, qz, leeway=lw, x_leeway=lx, y_leeway=ly, z_leeway=lz)
     exp = []
-    for a in ags:
-        p = a[PositionComponent]
-        if _in_box(p.x, qx, lw, lx) and _in_box(p.y, qy, lw, ly) and _in_box(p.z, qz, lw, lz):
+    for a, (px_, py_, pz_) in zip(ags, where):
+        if _in_box(px_, qx, lw, lx) and _in_box(py_, qy, lw, ly) and _in_box(pz_, qz, lw, lz):
             exp.append(a)
     if len(exp) == 0:
         hx.reach('none')
@@ -105,7 +107,7 @@ def box_int(x0: int, y0: int, z0: int, x1: int, y1: int, z1: int, qx: int, qy: i
         hx.reach('all')
     if not hx.same_seq(got, exp):
         return hx.end(hx.fail("agents in the leeway box", got=[a.id for a in got], exp=[a.id for a in exp],
-                              positions=[a[PositionComponent].xyz() for a in ags], query=(qx, qy, qz), leeways=(lw, lx, ly, lz)))
+                              positions=where, query=(qx, qy, qz), leeways=(lw, lx, ly, lz)))
     if len(exp) == 0 and got != []:
         return hx.end(hx.fail("empty result is not []"))
     return hx.end(True)
